@@ -127,9 +127,12 @@ func readTCP(r io.Reader, buf []byte) (int, error) {
 }
 
 func writeTCP(c net.Conn, buf []byte) error {
-	if err := binary.Write(c, binary.BigEndian, uint16(len(buf))); err != nil {
-		return err
-	}
-	_, err := c.Write(buf)
+	// Send the length prefix and the message with a single Write: the handlers
+	// of pipelined queries write concurrently to the same connection, and two
+	// separate writes would let their frames interleave.
+	b := make([]byte, 2+len(buf))
+	binary.BigEndian.PutUint16(b, uint16(len(buf)))
+	copy(b[2:], buf)
+	_, err := c.Write(b)
 	return err
 }
